@@ -102,11 +102,12 @@ def judge_plan(res, sizes, W, demands, opt):
 LIMITS = [{"max_iter": 0}, {"max_iter": 1}, {"max_iter": 2}, {"stop": 0}, {"stop": 1}, {"max_iter": 1, "max_nodes": 1}, {"max_nodes": 2}]
 
 
-def run_instance(r, sizes, W, demands, solvers, limits=False, base=None):
+def run_instance(r, sizes, W, demands, solvers, limits=False, base=None, opt=None):
     from solvor.bp import solve_bp
     from solvor.cg import solve_cg
 
-    opt = min_rolls(sizes, W, demands)
+    if opt is None:
+        opt = min_rolls(sizes, W, demands)
     single = sum(-(-d // (W // s)) for d, s in zip(demands, sizes))
     nontrivial = opt < single
     wit00 = {"roll_width": W, "piece_sizes": list(sizes), "demands": list(demands)}
@@ -216,7 +217,7 @@ def _perfect_chunk(params, lo, hi):
     for k in range(lo, hi):
         a, b = cases[off + k * stride]
         sizes = list(a) + list(b)
-        run_instance(r, sizes, 16, [1] * len(sizes), ("solve_bp",), base={"max_iter": 60, "max_nodes": 20})
+        run_instance(r, sizes, 16, [1] * len(sizes), ("solve_bp",), base={"max_iter": 60, "max_nodes": 20}, opt=2)
         if len(r["violations"]) >= 40 or r["counters"]["hangs"] >= 2 or too_many_hangs():
             r["capped"] = True
             break
@@ -240,6 +241,21 @@ def _sweep_chunk(params, lo, hi):
         for solver in ("solve_cg", "solve_bp"):
             for W in widths + widths[::-1]:
                 run_instance(r, list(sizes), W, list(demands), (solver,), base={"max_iter": 60} if solver == "solve_bp" else None)
+        if len(r["violations"]) >= 40 or r["counters"]["hangs"] >= 2 or too_many_hangs():
+            r["capped"] = True
+            break
+    return r
+
+
+def _perfect_cg_chunk(params, lo, hi):
+    """solve_cg on every case of the perfect-roll family, unit demands: two rolls suffice by construction and the total
+    length is 32, so the minimum is exactly 2 (no search needed for the oracle)"""
+    cases = perfect_cases()
+    r = new_result()
+    for idx in range(lo, hi):
+        a, b = cases[idx]
+        sizes = list(a) + list(b)
+        run_instance(r, sizes, 16, [1] * len(sizes), ("solve_cg",), opt=2)
         if len(r["violations"]) >= 40 or r["counters"]["hangs"] >= 2 or too_many_hangs():
             r["capped"] = True
             break
@@ -387,6 +403,7 @@ def jobs(tier, seed):
     js.append(Job("wide_rolls", len(wide_cases(tier == "thorough")), _wide_chunk, tier == "thorough", chunk=4, describe="roll widths 1500, 2000 (thorough: also 1501, 1503) with two piece sizes within 2 of a third of the width, demands over {1,2,3,6}^2; solve_cg and solve_bp (pricing on rolls wider than 1000 units)"))
     js.append(Job("width_sweeps_in_one_process", len(sweep_cases()), _sweep_chunk, None, chunk=1, describe="one order (two piece sizes in 1..7) solved for every roll width up to 12 and back, consecutively in one process; each answer judged on its own"))
     npf = len(perfect_cases())
+    js.append(Job("cg_two_perfect_rolls_W16", npf, _perfect_cg_chunk, None, describe="solve_cg on the pieces of two rolls of width 16 cut into 3-4 pieces each, unit demands (degenerate column-generation steps: the master LP value stalls before the last useful column)"))
     if tier == "thorough":
         js.append(Job("bp_two_perfect_rolls_W16", npf, _perfect_chunk, (0, 1), chunk=1, describe="solve_bp (max_iter 60, max_nodes 20) on the pieces of two rolls of width 16 cut into 3-4 pieces each, unit demands: optimum 2 by construction, degenerate masters"))
     else:
